@@ -68,6 +68,14 @@ type c02World struct {
 	lastNow int64
 	mops    []string
 	flights map[string][]byte
+	// the object that was delivered last for a registration (by rid), with the parameters it was built with
+	objs map[int]c02Obj
+}
+
+type c02Obj struct {
+	d        *DecoyRegistration
+	prefixID int32
+	ppMode   int
 }
 
 func c02Keys(i int) (priv, pub [32]byte) {
@@ -81,7 +89,7 @@ func c02Keys(i int) (priv, pub [32]byte) {
 }
 
 func newC02World(nkeys int) *c02World {
-	w := &c02World{flights: map[string][]byte{}}
+	w := &c02World{flights: map[string][]byte{}, objs: map[int]c02Obj{}}
 	for i := 0; i < nkeys; i++ {
 		priv, pub := c02Keys(i)
 		w.privs, w.pubs = append(w.privs, priv), append(w.pubs, pub)
@@ -186,6 +194,14 @@ func (w *c02World) advance(now int64) {
 
 // op: 'r' register (track + validate), 't' track only, 'm' mark used, 's' sweep
 func (w *c02World) apply(kind byte, ph, sec int, tr pb.TransportType, prefixID int32, ppMode int, now int64) {
+	w.applyObj(kind, ph, sec, tr, prefixID, ppMode, now, 0)
+}
+
+// applyObj: obj says which object a delivery ('r' / 't') hands to the registry — 0 a new one, 1 a new
+// one whose Valid flag is already set, 2 the very object that was delivered for this registration
+// before (it keeps the parameters it was built with and whatever flags it carries by now, e.g. Valid
+// from a lifetime that a sweep has ended since).
+func (w *c02World) applyObj(kind byte, ph, sec int, tr pb.TransportType, prefixID int32, ppMode int, now int64, obj byte) {
 	rd := w.rm.registeredDecoys
 	w.advance(now)
 	if kind == 's' {
@@ -206,6 +222,11 @@ func (w *c02World) apply(kind byte, ph, sec int, tr pb.TransportType, prefixID i
 		r = &c02Reg{ph: ph, sec: sec, tr: tr, prefixID: prefixID, ppMode: ppMode, rid: len(w.regs) + 1, dupPID: -1}
 		w.regs = append(w.regs, r)
 	}
+	prev, again := w.objs[r.rid]
+	again = again && obj == 2 && kind != 'm'
+	if again {
+		prefixID, ppMode = prev.prefixID, prev.ppMode
+	}
 	// the object that is delivered carries the parameters of THIS delivery; a duplicate must neither
 	// replace the tracked object nor its parameters (the ground truth keeps those of the first delivery)
 	if !r.tracked && (kind == 'r' || kind == 't') {
@@ -215,6 +236,18 @@ func (w *c02World) apply(kind byte, ph, sec int, tr pb.TransportType, prefixID i
 	req := *r
 	req.prefixID, req.ppMode = prefixID, ppMode
 	d := w.mkDecoy(&req)
+	spelled := ""
+	if kind != 'm' {
+		switch {
+		case again:
+			d = prev.d
+			spelled = "r" + vlib.B(d.Valid)
+		case obj == 1:
+			d.Valid = true
+			spelled = "1"
+		}
+		w.objs[r.rid] = c02Obj{d, prefixID, ppMode}
+	}
 	if kind != 'm' && r.tracked && tr == pb.TransportType_Prefix && (ppMode == 0 || ppMode == 3) && prefixID != r.prefixID {
 		r.dupPID = prefixID
 	}
@@ -227,13 +260,21 @@ func (w *c02World) apply(kind byte, ph, sec int, tr pb.TransportType, prefixID i
 			r.tracked, r.time = true, now
 		}
 		r.valid = true
-		w.mops = append(w.mops, fmt.Sprintf("r,%s,%s,%d,%d", phs, r.ident, int(tr), now))
+		if spelled != "" {
+			w.mops = append(w.mops, fmt.Sprintf("ro,%s,%s,%d,%d,%s", phs, r.ident, int(tr), now, spelled))
+		} else {
+			w.mops = append(w.mops, fmt.Sprintf("r,%s,%s,%d,%d", phs, r.ident, int(tr), now))
+		}
 	case 't':
 		_ = rd.Track(d)
 		if !r.tracked {
 			r.tracked, r.time = true, now
 		}
-		w.mops = append(w.mops, fmt.Sprintf("t,%s,%s,%d,%d", phs, r.ident, int(tr), now))
+		if spelled != "" {
+			w.mops = append(w.mops, fmt.Sprintf("to,%s,%s,%d,%d,%s", phs, r.ident, int(tr), now, spelled))
+		} else {
+			w.mops = append(w.mops, fmt.Sprintf("t,%s,%s,%d,%d", phs, r.ident, int(tr), now))
+		}
 	case 'm':
 		rd.markActive(d)
 		if r.tracked {
@@ -485,6 +526,7 @@ func c02RunWorld(out *vlib.Out, r *vlib.Rand, nOffers int) {
 	nph, nsec := r.Range(1, 3), r.Range(1, 3)
 	now := int64(0)
 	nops := r.Range(2, 9)
+	var starts []int64 // times of deliveries (first ones and duplicates): a lifetime may have started there
 	for i := 0; i < nops; i++ {
 		ph, sec, tr := r.Intn(nph), r.Intn(nsec), trs[r.Intn(3)]
 		pid := int32(r.Intn(10))
@@ -496,18 +538,30 @@ func c02RunWorld(out *vlib.Out, r *vlib.Rand, nOffers int) {
 		if tr != pb.TransportType_Prefix && r.Chance(1, 4) {
 			mode = 4
 		}
+		// which object is delivered: a new one, a new one with Valid already set, the one delivered before
+		obj := []byte{0, 0, 0, 0, 0, 0, 1, 2, 2, 2}[r.Intn(10)]
 		switch k := r.Intn(10); {
 		case k < 6:
-			w.apply('r', ph, sec, tr, pid, mode, now)
+			w.applyObj('r', ph, sec, tr, pid, mode, now, obj)
+			starts = append(starts, now)
 		case k < 8:
-			w.apply('t', ph, sec, tr, pid, mode, now)
+			w.applyObj('t', ph, sec, tr, pid, mode, now, obj)
+			starts = append(starts, now)
 		case k < 9:
 			w.apply('m', ph, sec, tr, pid, mode, now)
 		default:
-			// registrations on whole minutes, sweeps on the half minute: no record is ever exactly at a limit
-			now += 60 * int64(r.Range(1, 400))
-			w.apply('s', 0, 0, 0, 0, 0, now+30)
-			now += 60
+			// registrations on whole minutes, sweeps on the half minute: no record is ever exactly at a limit.
+			// Half of the sweeps are aimed half a minute before / after the moment a lifetime that started
+			// at one of the deliveries (a first one or a duplicate) would end.
+			at := now + 60*int64(r.Range(1, 400)) + 30
+			if len(starts) > 0 && r.Chance(1, 2) {
+				c := starts[r.Intn(len(starts))] + []int64{c08Unused, c08Active}[r.Intn(2)] + []int64{-30, 30}[r.Intn(2)]
+				if c > now {
+					at = c
+				}
+			}
+			w.apply('s', 0, 0, 0, 0, 0, at)
+			now = (at/60 + 1) * 60
 		}
 		if r.Chance(1, 3) {
 			now += 60 * int64(r.Range(1, 8))
@@ -635,6 +689,73 @@ func c02RunWorld(out *vlib.Out, r *vlib.Rand, nOffers int) {
 	}
 }
 
+// c02LifetimeWorld: one to three registrations, each with its own little life — delivered (validated or
+// only tracked; a new object, one with Valid preset, or the object of an earlier lifetime), perhaps
+// delivered again later (a duplicate must not renew the lifetime: expiry counts from the FIRST
+// delivery), perhaps used by a connection — then a sweep aimed half a minute before / after the end of a
+// lifetime counted from one of the deliveries, perhaps a re-delivery after the sweep; then the genuine
+// flight of every registration is offered on its phantom (plus a replay on another phantom).
+func c02LifetimeWorld(out *vlib.Out, r *vlib.Rand) {
+	w := newC02World(r.Range(1, 2))
+	trs := []pb.TransportType{pb.TransportType_Min, pb.TransportType_Prefix, pb.TransportType_Obfs4}
+	type life struct {
+		ph, sec int
+		tr      pb.TransportType
+		pid     int32
+	}
+	var lives []life
+	var starts []int64
+	now := int64(0)
+	nreg := r.Range(1, 3)
+	for i := 0; i < nreg; i++ {
+		l := life{ph: r.Intn(2), sec: i, tr: trs[r.Intn(3)], pid: int32(r.Intn(10))}
+		lives = append(lives, l)
+		kind := []byte{'r', 'r', 'r', 't'}[r.Intn(4)]
+		w.applyObj(kind, l.ph, l.sec, l.tr, l.pid, 0, now, []byte{0, 0, 1}[r.Intn(3)])
+		starts = append(starts, now)
+		if r.Chance(1, 3) {
+			now += 60 * int64(r.Range(1, 5))
+		}
+	}
+	for _, l := range lives {
+		if r.Chance(1, 2) {
+			// a duplicate delivery some minutes later, inside the unused lifetime of the first one
+			now += 60 * int64(r.Range(1, 4))
+			w.applyObj([]byte{'r', 't'}[r.Intn(2)], l.ph, l.sec, l.tr, l.pid, 0, now, []byte{0, 1, 2}[r.Intn(3)])
+			starts = append(starts, now)
+		}
+		if r.Chance(1, 3) {
+			w.apply('m', l.ph, l.sec, l.tr, l.pid, 0, now)
+		}
+	}
+	offerAll := func(kind string) {
+		for _, l := range lives {
+			reg := w.find(l.ph, l.sec, l.tr)
+			f := w.flight(reg.sec, reg.tr, reg.prefixID, 0)
+			w.offer(out, c02Offer{kind: kind, ph: reg.ph, tr: reg.tr, data: f, owner: reg, genuine: true, pid: reg.prefixID})
+			w.offer(out, c02Offer{kind: "cross-phantom", ph: (reg.ph + 1) % 3, tr: reg.tr, data: f, owner: reg, genuine: true, pid: reg.prefixID})
+		}
+	}
+	offerAll("genuine-before-sweep")
+	for round, rounds := 0, r.Range(1, 2); round < rounds; round++ {
+		at := starts[r.Intn(len(starts))] + []int64{c08Unused, c08Active}[r.Intn(2)] + []int64{-30, 30}[r.Intn(2)]
+		if at <= now {
+			at = now + 60*int64(r.Range(1, 400)) + 30
+		}
+		w.apply('s', 0, 0, 0, 0, 0, at)
+		now = (at/60 + 1) * 60
+		offerAll("replay-after-sweep")
+		if r.Chance(1, 2) {
+			// delivered again after the sweep: the object of the earlier lifetime, or a new one; tracked only
+			// (not visible until validated) or validated
+			l := lives[r.Intn(len(lives))]
+			w.applyObj([]byte{'t', 't', 'r'}[r.Intn(3)], l.ph, l.sec, l.tr, l.pid, 0, now, []byte{0, 2, 2}[r.Intn(3)])
+			starts = append(starts, now)
+			offerAll("after-redelivery")
+		}
+	}
+}
+
 func indexOf(l []pb.TransportType, t pb.TransportType) int {
 	for i, x := range l {
 		if x == t {
@@ -747,6 +868,52 @@ func TestVerifC02(t *testing.T) {
 				}
 			}
 		}
+	}
+	// corpus: a duplicate delivery does not renew the lifetime (expiry counts from the first delivery);
+	// an object that lived before is tracked again after the sweep forgot it, or arrives with its Valid
+	// flag set: tracked, but no flight is accepted for it until it is validated (again)
+	{
+		w := newC02World(1)
+		w.apply('r', 0, 0, pb.TransportType_Min, 0, 0, 0)
+		w.apply('r', 0, 1, pb.TransportType_Prefix, 2, 0, 0)
+		w.apply('r', 1, 2, pb.TransportType_Obfs4, 0, 0, 0)
+		w.apply('r', 0, 3, pb.TransportType_Min, 0, 0, 0)
+		w.apply('m', 0, 3, pb.TransportType_Min, 0, 0, 60)
+		w.apply('r', 0, 0, pb.TransportType_Min, 0, 0, 300) // duplicates, 5 and 9 minutes after the first delivery
+		w.apply('t', 0, 1, pb.TransportType_Prefix, 2, 0, 540)
+		w.applyObj('r', 1, 2, pb.TransportType_Obfs4, 0, 0, 540, 2) // … the same object once more
+		offerAll := func(kind string) {
+			for _, reg := range w.regs {
+				f := w.flight(reg.sec, reg.tr, reg.prefixID, 0)
+				w.offer(out, c02Offer{kind: kind, ph: reg.ph, tr: reg.tr, data: f, owner: reg, genuine: true, pid: reg.prefixID})
+			}
+		}
+		w.apply('s', 0, 0, 0, 0, 0, 630) // 10.5 min after the FIRST deliveries: the three unused ones are expired
+		offerAll("replay-after-sweep")
+		// the objects of the ended lifetimes are delivered again (tracked only): not visible
+		w.applyObj('t', 0, 0, pb.TransportType_Min, 0, 0, 720, 2)
+		w.applyObj('t', 0, 1, pb.TransportType_Prefix, 2, 0, 720, 2)
+		w.applyObj('t', 1, 2, pb.TransportType_Obfs4, 0, 0, 720, 2)
+		offerAll("after-redelivery")
+		w.applyObj('r', 0, 0, pb.TransportType_Min, 0, 0, 780, 2) // validated again: accepted again
+		offerAll("after-redelivery")
+		w.apply('r', 0, 3, pb.TransportType_Min, 0, 0, 3600) // a duplicate of the used one, an hour into its lifetime
+		w.apply('s', 0, 0, 0, 0, 0, 21630)                   // 6 h after the first delivery of the used one (its duplicate at 1 h does not count)
+		offerAll("replay-after-sweep")
+	}
+	{
+		w := newC02World(2)
+		w.applyObj('t', 0, 0, pb.TransportType_Min, 0, 0, 0, 1) // constructed with Valid set, only tracked
+		w.applyObj('t', 0, 1, pb.TransportType_Prefix, 6, 0, 0, 1)
+		w.applyObj('t', 2, 2, pb.TransportType_Obfs4, 0, 0, 0, 1)
+		w.applyObj('r', 2, 3, pb.TransportType_Obfs4, 0, 0, 0, 1)
+		for _, reg := range w.regs {
+			f := w.flight(reg.sec, reg.tr, reg.prefixID, 0)
+			w.offer(out, c02Offer{kind: "genuine", ph: reg.ph, tr: reg.tr, data: f, owner: reg, genuine: true, pid: reg.prefixID})
+		}
+	}
+	for i, n := 0, vlib.Budget(120, 2400); i < n; i++ {
+		c02LifetimeWorld(out, r)
 	}
 	worlds := vlib.Budget(150, 3000)
 	for i := 0; i < worlds; i++ {
